@@ -231,8 +231,9 @@ def run_harness(prop, tier, seed, extra=None, timeout=3000):
 def run_model(cases, timeout=3000):
     """model verdict per case line through the extracted runner."""
     with open(cases) as f:
-        rc, out, dt = sh("ulimit -s unlimited 2>/dev/null; exec %s check" % os.path.join(BUILD, "vmodel"),
-                         stdin=f, timeout=timeout)
+        # deep non-tail recursion over long byte lists: a large minor heap keeps the stack scans rare
+        rc, out, dt = sh("ulimit -s unlimited 2>/dev/null; OCAMLRUNPARAM=s=%s exec %s check" % (
+            os.environ.get("VERIF_OCAML_MINOR", "32M"), os.path.join(BUILD, "vmodel")), stdin=f, timeout=timeout)
     mism, done = [], None
     for l in out.splitlines():
         if l.startswith("MISMATCH "):
